@@ -49,6 +49,32 @@ def cases(rng, tier):
         yield Case("sim-icache-reload", lines, None, {"mode": mode, "reload": True, "prog": p1, "regs": {}, "pokes": [], "d": "-", "i": ispec, "hazard": True})
 
 
+_cases0 = cases
+
+
+def cases(rng, tier):
+    yield from _cases0(rng, tier)
+    # a load that FAILS after the instruction cache was used (the caller catches the error and carries on): nothing of the
+    # previous program may remain in the cache or its counters; the next program is then stored instruction by instruction
+    # through the public per-instruction entry point and run
+    import rvasmgen
+    for i in range(16 if tier == "quick" else 200):
+        mode = "five" if i % 2 else "single"
+        n1 = rng.choice([2, 4, 6])
+        p1 = [rvgen.tok("addi", 1 + k % 5, 0, 0, k + 1) for k in range(n1)]
+        p2 = [rvgen.tok("addi", 6 + k % 5, 0, 0, 100 + k) for k in range(rng.choice([2, 3, 5]))]
+        ispec = f"{rng.choice(['lru', 'plru'])},{rng.choice([0, 1])},{rng.choice([0, 1, 2])},{rng.choice([1, 2])},{rng.choice([0, 3])}"
+        bad = rng.choice(["addi x1, x0, 1\nthis is not an instruction", "lw x1, nowhere", "a:\na:\nnop"])
+        lines = [f"sim.new {mode} 1 - {ispec}", "sim.prog " + " ".join(p1), "sim.snap", "sim.run 200", "sim.snap", f"sim.load {rvasmgen.hx(bad)}", "sim.snap", "sim.istats"]
+        for k, t in enumerate(p2):
+            lines.append(f"sim.wi {k} {t}")
+        lines += ["sim.pc 0", "sim.snap"]
+        for _ in range(5):
+            lines += ["sim.step", "sim.snap", "sim.istats"]
+        lines += ["sim.run 200", "sim.snap"]
+        yield Case("sim-icache-failed-load", lines, None, {"mode": mode, "prog": p1, "regs": {}, "pokes": [], "d": "-", "i": ispec, "hazard": True})
+
+
 nontrivial = lambda c: "\n".join(c.lines[:3])
 
 
@@ -62,7 +88,32 @@ def measure(c, stats):
             stats.bump("icache_hits", int(h)); stats.bump("icache_accesses", int(a))
 
 
+def _after_load_oracle(c):
+    """right after every load attempt — successful or rejected — the instruction cache holds no block and has counted nothing"""
+    if not any(l.startswith("sim.load") or l.startswith("sim.prog") for l in c.lines[2:]):
+        return []
+    im = implmod.Impl()
+    for k, l in enumerate(c.lines):
+        o = im.run(l)
+        if (l.startswith("sim.load") or l.startswith("sim.prog")) and k > 1:
+            try:
+                tab, st = im.sim.get_instruction_cache_entries(), im.sim.get_instruction_cache_stats()
+            except Exception:
+                return []
+            if tab is None:
+                return []
+            valid = sum(1 for s_ in tab.sets for b in s_.blocks if str(b.valid_bit) == "1")
+            if valid or (st["hits"], st["accesses"]) != ("0", "0"):
+                return [Failure("oracle", PROP, f"after a {'rejected' if not o.startswith('ok') else 'successful'} load the instruction cache shows {valid} valid blocks and (hits, accesses) = ({st['hits']}, {st['accesses']})", "icache:reset")]
+    return []
+
+
 def oracle(c):
+    f_ = _after_load_oracle(c)
+    if f_:
+        return f_
+    if c.suite == "sim-icache-failed-load":
+        return []
     if c.suite != "sim-icache-reload":
         import simspy
         second_ = [i for i, l in enumerate(c.lines) if l.startswith("sim.prog")]
